@@ -399,8 +399,9 @@ def pick_k(rng, n, name):
 
 
 def regime_of(c):
-    return (f"n{c['n']}m{c['m']}p{c['p']}/A:{c['a_kind']}/C:{c['c_kind']}/P:{c['p_kind']}/"
-            f"s:{cls_scale(c['scales'][0])}{cls_scale(c['scales'][1])}{cls_scale(c['scales'][2])}/y:{c['y_kind']}")
+    """Case split named in the evidence (dimensions, measurement kind, x offset are tallied as marks)."""
+    return (f"A:{c['a_kind']}/C:{c['c_kind']}/P:{c['p_kind']}/"
+            f"PQR:{cls_scale(c['scales'][0])}-{cls_scale(c['scales'][1])}-{cls_scale(c['scales'][2])}")
 
 
 def one_step_linear(ck, rng, c, ks, t=None, who_suffix=""):
@@ -428,7 +429,7 @@ def one_step_linear(ck, rng, c, ks, t=None, who_suffix=""):
         judge_post(ck, "ekf_lin", reg, "EKF.forward", out[0], out[1], r, tx, tP, wit, alt=alt)
         judge_valid(ck, "ekf", "lin", "EKF.forward", out[1], tP, wit)
         marks(ck, "ekf", c, ("tv" if (s.tv and t is not None) else "ti", sharp(ck, "ekf", tP, r)))
-        if len(ck.samples) < 3:
+        if len(ck.samples) < 3 and not trivial and c["n"] > 1:
             ck.sample({"filter": "EKF", "case": witness(c), "got_x": N64(out[0]).tolist(),
                        "kalman_x": KR.f64(r["xp"]).tolist(), "got_P": N64(out[1]).tolist(),
                        "kalman_P": KR.f64(r["Pp"]).tolist()})
@@ -444,7 +445,7 @@ def one_step_linear(ck, rng, c, ks, t=None, who_suffix=""):
             ck.note_add("discarded_ukf_predicted_cov_not_factorisable_in_f64")
             continue
         kc = cls_k(n, k)
-        regk = reg + f"/k:{kc}"
+        regk = f"A:{c['a_kind']}/C:{c['c_kind']}/P:{c['p_kind']}{who_suffix}/k:{kc}"
         witk = lambda **kw: witness(c, t=t, k=k, **kw)
         kw = {} if k is None else {"k": k}
         ok, out = call_filter(ck, "ukf_lin.mean", regk, "UKF.forward", ukf, c, witk, t=t, **kw)
@@ -581,7 +582,7 @@ def step_nonlinear(ck, rng, c, ekf, ukf, tag, step=0):
     if not well_posed(ck, "nl", r):
         return None
     dx, dP = KR.ekf_err(r, s, c["x"], c["u"], c["P"], c["Q"], c["R"], c["y"])
-    reg = f"nl:{c['nl']}/n{n}p{c['p']}/{tag}"
+    reg = f"nl:{c['nl']}/n{n}/{tag}"
     wit = lambda **kw: witness(c, step=step, **kw)
     ok, out = call_filter(ck, "ekf_nl.mean", reg, "EKF.forward", ekf, c, wit)
     if not (ok and shape_ok(ck, "ekf_nl.mean", reg, "EKF.forward", out[0], out[1], n, wit)):
@@ -846,87 +847,87 @@ def oracle_selftest(ck, rng):
 
 
 # ======================================================================================== driver
+def items(ck, section, total):
+    """Global work list of a section split over the shards: (index, private generator)."""
+    for j in range(total):
+        if ck.mine(j):
+            yield j, ck.rng(f"{section}/{j}")
+
+
 def run(ck):
-    thorough = ck.tier == "thorough"
-    rng = ck.rng("c13")
+    th = ck.tier == "thorough"
     if ck.shard == 0:
         oracle_selftest(ck, ck.rng("selftest"))
 
     # ---- (1) one step, every dimension triple, forced corners of the (P,Q,R) scale cube
     triples = [(n, m, p) for n in range(1, 7) for m in range(1, 7) for p in range(1, 7)]
-    reps = 6 if thorough else 1
     corners = [(a, b, c) for a in (1e-3, 1e3) for b in (1e-3, 1e3) for c in (1e-3, 1e3)]
-    ci = 0
-    for rep in range(reps):
-        for i, (n, m, p) in enumerate(triples):
-            if not ck.mine(i + rep):
-                continue
-            for v in range(3):
-                scales = corners[(ci + i) % 8] if v == 0 else None
-                ci += 1
-                pk = ("dense", "corr", "diag")[v] if n > 1 else None
-                c = gen_case(rng, n, m, p, p_kind=pk, scales=scales)
-                ks = ("None", "near-n", "0") if v == 0 else (("real-", "int+", "100") if v == 1 else ("int-", "real+", "10"))
-                one_step_linear(ck, rng, c, ks)
+    reps = 60 if th else 1
+    for j, rng in items(ck, "one-step", reps * len(triples)):
+        n, m, p = triples[j % len(triples)]
+        for v in range(3):
+            scales = corners[(j + j // len(triples)) % 8] if v == 0 else None
+            pk = ("dense", "corr", "diag")[v] if n > 1 else None
+            c = gen_case(rng, n, m, p, p_kind=pk, scales=scales)
+            ks = ("None", "near-n", "0") if v == 0 else (("real-", "int+", "100") if v == 1 else ("int-", "real+", "10"))
+            one_step_linear(ck, rng, c, ks)
     # time-varying linear systems with explicit t
-    for j in range(60 if thorough else 12):
+    for j, rng in items(ck, "tv", 960 if th else 48):
         n, m, p = (int(v) for v in rng.integers(1, 7, 3))
         c = gen_case(rng, n, m, p, tv=float(rng.uniform(0.1, 0.9)), p_kind="dense" if n > 1 else None)
         t = float(rng.integers(0, 40))
         c["y"], c["y_kind"] = draw_y(rng, c, t=t)
         one_step_linear(ck, rng, c, ("None", "real-", "real+"), t=t, who_suffix="/tv")
 
-    # ---- (2) self-fed runs
-    nruns = 10 if thorough else 3
-    for j in range(nruns):
-        for a_kind in ("stable", "unstable", "marginal", "singular"):
-            n, m, p = (int(v) for v in rng.integers(1, 7, 3))
-            if j == 0:
-                n = max(n, 2)
-            c = gen_case(rng, n, m, p, a_kind=a_kind, c_kind=("full", "rankdef")[int(rng.random() < 0.3)],
-                         p_kind=("dense", "corr")[j % 2] if n > 1 else None,
-                         scales=(lscale(rng, -3, 3), lscale(rng, -2, 2), lscale(rng, -2, 2)), xfar=lscale(rng, -1, 1),
-                         tv=0.3 if (j % 3 == 2 and a_kind == "stable") else 0.0)
-            t0 = 0 if c["sys"].tv else None
-            run_linear(ck, ck.rng(f"run/{j}/{a_kind}/ekf"), c, 50, "ekf", tv_t0=t0)
-            for kname in (("None", "real+") if j % 2 == 0 else ("0", "real-")):
-                run_linear(ck, ck.rng(f"run/{j}/{a_kind}/ukf/{kname}"), c, 50, "ukf", k=pick_k(rng, n, kname), tv_t0=t0)
+    # ---- (2) self-fed runs of 50 steps
+    kinds = ("stable", "unstable", "marginal", "singular")
+    for j, rng in items(ck, "run", 4 * (160 if th else 12)):
+        a_kind, g = kinds[j % 4], j // 4
+        n, m, p = (int(v) for v in rng.integers(1, 7, 3))
+        if g % 3 == 0:
+            n = max(n, 2)
+        c = gen_case(rng, n, m, p, a_kind=a_kind, c_kind=("full", "rankdef")[int(rng.random() < 0.3)],
+                     p_kind=("dense", "corr")[g % 2] if n > 1 else None,
+                     scales=(lscale(rng, -3, 3), lscale(rng, -2, 2), lscale(rng, -2, 2)), xfar=lscale(rng, -1, 1),
+                     tv=0.3 if (g % 3 == 2 and a_kind == "stable") else 0.0)
+        t0 = 0 if c["sys"].tv else None
+        run_linear(ck, ck.rng(f"run/{j}/ekf"), c, 50, "ekf", tv_t0=t0)
+        for kname in (("None", "real+") if g % 2 == 0 else ("0", "real-")):
+            run_linear(ck, ck.rng(f"run/{j}/ukf/{kname}"), c, 50, "ukf", k=pick_k(rng, n, kname), tv_t0=t0)
 
     # ---- (3) nonlinear EKF (and UKF covariance validity)
-    nnl = 240 if thorough else 45
-    for j in range(nnl):
+    for j, rng in items(ck, "nl", 4000 if th else 180):
         n, m, p = (int(v) for v in rng.integers(1, 7, 3))
-        nl = float((0.01, 0.3, 1.0, 3.0)[j % 4])
-        c = gen_smooth(rng, n, m, p, nl)
+        c = gen_smooth(rng, n, m, p, float((0.01, 0.3, 1.0, 3.0)[(j // 4) % 4]))
         model = SmoothNLS(c["sys"])
         step_nonlinear(ck, rng, c, pp.module.EKF(model), pp.module.UKF(model), "single")
-    for j in range(8 if thorough else 2):
+    for j, rng in items(ck, "nl-run", 64 if th else 8):
         n, m, p = (int(v) for v in rng.integers(1, 7, 3))
-        c = gen_smooth(rng, n, m, p, float((0.3, 1.0)[j % 2]))
+        c = gen_smooth(rng, n, m, p, float((0.3, 1.0)[(j // 4) % 2]))
         run_nonlinear(ck, rng, c, 50)
 
     # ---- (4) particle filter
-    plan = [(1e3, 150), (1e4, 100), (1e5, 20)] if not thorough else [(1e3, 400), (1e4, 300), (1e5, 100), (1e6, 8)]
-    idx = 0
+    plan = [(1e3, 6000), (1e4, 5000), (1e5, 1600), (1e6, 96)] if th else [(1e3, 600), (1e4, 400), (1e5, 80)]
     for N, cnt in plan:
-        for j in range(cnt):
-            n = 1 + (j + ck.shard) % 6
+        for j, rng in items(ck, f"pf/{int(N)}", cnt):
+            n = 1 + (j // 4) % 6
             m, p = (int(v) for v in rng.integers(1, 7, 2))
             c = gen_pf_case(rng, n, m, p, N=N)
-            pf_linear_case(ck, rng, c, int(N), "single", idx)
-            idx += 1
-    for N, cnt in ([(1e3, 10), (1e4, 8), (1e5, 3)] if not thorough else [(1e3, 40), (1e4, 30), (1e5, 12), (1e6, 2)]):
-        for j in range(cnt):
-            n = 1 + (j + ck.shard) % 2
+            pf_linear_case(ck, rng, c, int(N), "single", f"{int(N)}/{j}")
+    plan = [(1e3, 600), (1e4, 400), (1e5, 160), (1e6, 16)] if th else [(1e3, 40), (1e4, 32), (1e5, 12)]
+    for N, cnt in plan:
+        for j, rng in items(ck, f"pfnl/{int(N)}", cnt):
+            n = 1 + (j // 4) % 2
             m, p = (int(v) for v in rng.integers(1, 4, 2))
             c = gen_pf_case(rng, n, m, p, nonlinear=True, N=N)
-            pf_nonlinear_case(ck, rng, c, int(N), idx)
-            idx += 1
-    for j in range(4 if thorough else 1):
+            pf_nonlinear_case(ck, rng, c, int(N), f"{int(N)}/{j}")
+    for j, rng in items(ck, "pf-run", 32 if th else 4):
         n, m, p = (int(v) for v in rng.integers(1, 7, 3))
+        g = j // 4
+        N = int(1e5 if (th and g == 7) else (1e4 if g % 2 else 1e3))
         c = gen_pf_case(rng, n, m, p, N=1e3, a_kind="stable" if j % 2 == 0 else None)
         c["Q"] = spd(rng, n, c["scales"][0] * lscale(rng, -2, 0), lscale(rng, 0, 2), "dense")
-        pf_run(ck, rng, c, int(1e4 if j % 2 else 1e3), 50, j)
+        pf_run(ck, rng, c, N, 50, j)
 
     # ---- required regimes (input classes) and floors
     for who in ("ekf", "ukf"):
@@ -934,20 +935,22 @@ def run(ck):
                    *[f"{who}/p={d}" for d in range(1, 7)])
         ck.require(f"{who}/P/dense", f"{who}/P/corr", f"{who}/P/diag", f"{who}/A/stable", f"{who}/A/unstable",
                    f"{who}/A/singular", f"{who}/C/full", f"{who}/C/rankdef", f"{who}/C/zero", f"{who}/p>n", f"{who}/p<n",
-                   f"{who}/y/model", f"{who}/y/outlier", f"{who}/x/far", f"{who}/tv",
+                   f"{who}/y/model", f"{who}/y/outlier", f"{who}/x/far", f"{who}/tv", f"{who}/reltol<=1e-9",
+                   f"run/{who}/len>=50", f"run/{who}/A:unstable", f"run/{who}/reltol<=1e-9",
+                   f"run_par/{who}/judged-at-step-50",
                    *[f"{who}/{q}scale/{s}" for q in "PQR" for s in ("lo", "mid", "hi")])
     ck.require("ukf/k/None", "ukf/k/0", "ukf/k/neg", "ukf/k/neg-near--n", "ukf/k/pos", "ukf/k/pos-large",
                "ukf/centre-weight<0", "ukf/centre-weight>=0", "ukf_nl/valid",
-               "run/ekf/len>=50", "run/ukf/len>=50", "run/ekf/A:unstable", "run/ukf/A:unstable",
-               "ekf_nl/C(prior)!=C(pred)", "pf/N=1e3", "pf/N=1e4", "pf/N=1e5", "pf/informative", "pf/P:dense",
+               "ekf_nl/C(prior)!=C(pred)", "ekf_nl/reltol<=1e-9", *[f"ekf_nl/n={d}" for d in range(1, 7)],
+               "pf/N=1e3", "pf/N=1e4", "pf/N=1e5", "pf/informative", "pf/P:dense", "pf/A:unstable",
                "pf_nl/n=1", "pf_nl/n=2", "pf/run-len>=50", *[f"pf/n={d}" for d in range(1, 7)])
-    if thorough:
-        ck.require("pf/N=1e6")
+    if th:
+        ck.require("pf/N=1e6", "pf_nl/N=1e6")
     ck.floor("ekf_lin.mean", 600)
     ck.floor("ukf_lin.mean", 1500)
-    ck.floor("run_step.mean", 1000)
-    ck.floor("run_par.mean", 300)
-    ck.floor("ekf_nl.mean", 200)
-    ck.floor("cov_valid.psd", 2000)
-    ck.floor("pf_lin", 300)
-    ck.floor("pf_nl", 20)
+    ck.floor("run_step.mean", 3000)
+    ck.floor("run_par.mean", 1000)
+    ck.floor("ekf_nl.mean", 300)
+    ck.floor("cov_valid.psd", 5000)
+    ck.floor("pf_lin", 500)
+    ck.floor("pf_nl", 30)
